@@ -193,12 +193,15 @@ def check (prop : String) (inp out : List String) : Verdict :=
     -- the daemon's identity as a client decodes it from the handshake reply
     match parsePacket? .inst instTok, out with
     | some (.inst inst), [r] =>
-      let m := match decode .inst ((sendPacket (.inst inst)).drop 10) with
+      -- a record longer than the protocol's payload limit cannot be carried by a frame: the client's header check
+      -- refuses it (such an identity is outside the protocol, the clause does not speak about it)
+      let fits := decide (((sendPacket (.inst inst)).drop 10).length ≤ Consts.maxPayloadSize)
+      let m := if !fits then none else match decode .inst ((sendPacket (.inst inst)).drop 10) with
         | .ok (.inst i) => some i
         | _ => none
       let impl := match parsePacket? .inst r with | some (.inst i) => some i | _ => none
       { agree := m == impl, model := if m.isSome then "decodes" else "rejected",
-        specFail := failing [("client_decodes_daemon_identity", impl == some inst)] }
+        specFail := failing [("client_decodes_daemon_identity", !fits || impl == some inst)] }
     | _, _ => .bad "id tokens"
   | "sess" :: instTok :: evToks =>
     if out == ["HANG"] then
